@@ -1,4 +1,5 @@
 import OdcGeo.Model.C17
+import OdcGeo.Model.C03
 import OdcGeo.Spec.PySlice
 namespace OdcGeo.C17.Drv
 open OdcGeo OdcGeo.IO OdcGeo.C17
@@ -61,6 +62,10 @@ def run (args : List String) : Option String :=
   | ["padnd", shape, pad, ss] => do
     let shape ← parseList? parseInt? shape; let pad ← parseInt? pad; let ss ← parseList? parsePIdx? ss
     pure (fmtList fmtNS (roiPad ss pad shape))
+  | ["bnd", y0, y1, x0, x1, pps] => do
+    let y0 ← parseInt? y0; let y1 ← parseInt? y1; let x0 ← parseInt? x0; let x1 ← parseInt? x1
+    let pps ← parseNat? pps
+    pure (fmtList (fun (p : Rat × Rat) => s!"{fmtRat p.1};{fmtRat p.2}") (C03.roiBoundary (⟨y0, y1⟩, ⟨x0, x1⟩) pps))
   | ["center", s] => do
     let s ← parsePIdx? s
     pure (fmtRes fmtRat (sliceCenter s))
